@@ -328,6 +328,11 @@ def c3_merge(seqs: list[list[str]]) -> list[str] | None:
     return out
 
 
+def is_blocked(path: str, blocked) -> bool:
+    """`path` is one of the blocked entities or lies inside one."""
+    return any(path == b or path.startswith(b + ".") for b in blocked)
+
+
 class Pkg:
     """Reference semantics of a concrete model."""
 
@@ -372,7 +377,7 @@ class Pkg:
         """Follow an import chain to a non-alias entity; None if unresolvable, cyclic or routed through `blocked`."""
         seen = set()
         while True:
-            if path in blocked:
+            if blocked and is_blocked(path, blocked):
                 return None
             e = self.ent.get(path)
             if e is None:
@@ -413,7 +418,7 @@ class Pkg:
             if chain is not None:
                 chain.extend(ch)
             if fin is None:
-                if any(c in blocked for c in ch) or sp in blocked:
+                if blocked and (is_blocked(sp, blocked) or any(is_blocked(c, blocked) for c in ch)):
                     return None
                 continue
             if self.ent[fin][0] == "cls":
@@ -429,7 +434,7 @@ class Pkg:
             return None
         seqs = []
         for b in bases:
-            if b in blocked:
+            if blocked and is_blocked(b, blocked):
                 return None
             sub = self.mro(b, blocked, (*_stack, cpath))
             if sub is None:
@@ -554,6 +559,7 @@ class Frontier:
         self.no_inherit = no_inherit
         self.tags: dict[str, set[str]] = {}  # entity -> {"direct","alias","inherit"}
         self.acc: dict[str, set[str]] = {}  # entity -> acceptable reported paths
+        self.via: dict[str, set[str]] = {}  # entity -> "<publicly reached container>.<name>" routes only
         self.chain: set[str] = set()  # alias-chain intermediates of public aliases
         self._walked: set[tuple[str, str]] = set()
         if ROOT not in blocked:
@@ -581,13 +587,14 @@ class Frontier:
                 self._link(cont, name, owner, tag if own else "inherit")
 
     def _link(self, cont: str, name: str, child: str, tag: str) -> None:
-        if child in self.blocked:
+        if self.blocked and is_blocked(child, self.blocked):
             return
         pkg = self.pkg
         via = f"{cont}.{name}"
         target = child
         if pkg.ent[child][0] == "imp":
             self._mark(child, tag, via)
+            self.via.setdefault(child, set()).add(via)
             ch: list = []
             target = pkg.final(child, self.blocked, ch)
             self.chain.update(ch)
@@ -595,6 +602,7 @@ class Frontier:
                 return
             tag = "alias"
         self._mark(target, tag, via, target)
+        self.via.setdefault(target, set()).add(via)
         if pkg.ent[target][0] in ("module", "cls"):
             self._walk(target, tag)
 
@@ -672,10 +680,18 @@ class Editor:
         if not cands:
             return None
         where = edit.get("where", "any")
-        if where != "any":
-            sub = [c for c in cands if self.loc_class(c) == where]
-            if sub:
-                cands = sub
+        if where == "dead":
+            # an edit meant for an unobservable object is dropped when there is none (it must not turn incompatible)
+            cands = [c for c in cands if self.loc_class(c) == "dead"]
+            if not cands:
+                return None
+        elif where != "any":
+            # requested location class first, then the rarer classes before the common ones
+            for w in (where, "inherit", "reexport", "direct", "gray"):
+                sub = [c for c in cands if self.loc_class(c) == w]
+                if sub:
+                    cands = sub
+                    break
         return cands[edit.get("at", 0) % len(cands)]
 
     def _node(self, ent: str) -> dict:
